@@ -16,6 +16,10 @@ Parts
 Per resolution: rendered result == expected text; no '.'/'..' segment in the result; the base object is
 unchanged (text, every public attribute, ``base == pristine copy``) also after the returned URL is mutated;
 passing the reference as a URL object gives the same result as passing that object's text.
+For references of <= object_maxseg segments the reference is also handed in as a URL object in every internal
+state the library itself produces (after normalize(), as the outcome of a navigate() between relative references,
+as a copy URL(URL(ref))), and the base as a URL object after normalize(): each must resolve to the RFC target of
+the text that object renders to.
 
 Equivalences (DESIGN 5.1): the expected text is the 5.2 target with dot segments removed; both sides are
 compared modulo "empty path under an authority == '/'" and "explicit default port == no port".
@@ -295,7 +299,92 @@ class BaseInfo:
         self.snap = snapshot(self.pristine)
 
 
-def eval_navigate(URL, bi, ref):
+def in_domain(r):
+    """The reference shapes the statement covers: no authority at all, or its own scheme and host."""
+    if r[0] is None:
+        return r[1] is None
+    return bool(r[1])
+
+
+DEST_STATES = ('normalized', 'navigated', 'copied')
+
+
+def dest_in_state(URL, ref, state):
+    """The reference as a URL object in an internal state that the library itself produces (a parsed URL keeps
+    its segments in a tuple, normalize() and navigate() leave a list, ...)."""
+    if state == 'normalized':
+        d = URL(ref)
+        d.normalize()
+        return d
+    if state == 'navigated':
+        return URL('').navigate(ref)
+    return URL(URL(ref))
+
+
+def eval_object_states(URL, bi, ref, obs, out, stats=None):
+    """The reference / the base handed in as URL objects in other internal states.  An object stands for the
+    reference that it renders to (only when that text parses back to an equal object and is a reference shape
+    the statement covers); the result must be the RFC target for that text."""
+    for state in DEST_STATES:
+        try:
+            d = dest_in_state(URL, ref, state)
+            d_text = d.to_text()
+            d_snap = snapshot(d)
+            if snapshot(URL(d_text)) != d_snap:
+                continue
+        except Exception:
+            continue                   # building the object is not what the statement is about
+        rs = split_uri(d_text)
+        if not in_domain(rs):
+            continue
+        if stats is not None:
+            stats['object_dest_resolutions'] = stats.get('object_dest_resolutions', 0) + 1
+        tags = _tags(bi.split, rs) + ['dest_is_URL_object', 'dest_' + state]
+        exp_t = expected_target(bi.split, rs)
+        try:
+            base = URL(bi.text)
+            o = base.navigate(d).to_text()
+        except Exception as e:
+            out.append(('C07|fn:navigate|raised(URL-object-dest)', recompose(canon(exp_t)),
+                        'raised %s' % type(e).__name__, tags))
+            continue
+        compare('navigate(URL-object-dest)', exp_t, o, ref_shape(rs), out, tags)
+        try:
+            after = snapshot(base)
+        except Exception as e:
+            after = 'raised %s' % type(e).__name__
+        if after != bi.snap:
+            out.append(('C07|fn:navigate|base-modified', bi.snap, after, tags))
+    # the base as a URL object that has been normalized (only where that leaves the base as it was)
+    try:
+        base = URL(bi.text)
+        base.normalize()
+        same = snapshot(base) == bi.snap
+    except Exception:
+        same = False
+    if same:
+        if stats is not None:
+            stats['normalized_base_resolutions'] = stats.get('normalized_base_resolutions', 0) + 1
+        r = split_uri(ref)
+        tags = _tags(bi.split, r) + ['base_normalized']
+        exp_t = expected_target(bi.split, r)
+        try:
+            o = base.navigate(ref).to_text()
+        except Exception as e:
+            out.append(('C07|fn:navigate|raised(normalized-base)', recompose(canon(exp_t)),
+                        'raised %s' % type(e).__name__, tags))
+            return
+        if o != obs:
+            out.append(('C07|fn:navigate|normalized-base-resolves-differently', obs, o, tags))
+        try:
+            after = snapshot(base)
+        except Exception as e:
+            after = 'raised %s' % type(e).__name__
+        if after != bi.snap:
+            out.append(('C07|fn:navigate|base-modified', bi.snap, after, tags))
+
+
+def eval_navigate(URL, bi, ref, objects=False, stats=None):
     """One resolution with every per-resolution oracle.  Returns a list of (sig, expected, observed, tags)."""
     out = []
     r = split_uri(ref)
@@ -350,6 +439,8 @@ def eval_navigate(URL, bi, ref):
                 out.append(('C07|fn:navigate|result-shares-mutable-state-with-base', bi.snap, after, tags))
         except Exception as e:
             out.append(('C07|fn:navigate|result-not-a-usable-URL', None, 'raised %s' % type(e).__name__, tags))
+    if objects:
+        eval_object_states(URL, bi, ref, obs, out, stats)
     return out
 
 
@@ -466,32 +557,57 @@ def _base_info(g, URL, part, base):
     return bi
 
 
+def n_segments(path):
+    if not path:
+        return 0
+    return len(path.split('/')) - (1 if path.startswith('/') else 0)
+
+
+def _flush(t, stats):
+    for k in sorted(stats):
+        t.add(k, stats[k])
+
+
 def shard_navigate(arg, t, g):
     URL = _url()
     bi = _base_info(g, URL, arg['part'], arg['base'])
-    for path in ref_paths(arg['kind'], arg['alphabet'], arg['maxseg']):
-        nontrivial = path_is_nontrivial(path)
-        for q in arg['queries']:
-            for f in arg['fragments']:
-                ref = make_ref(path, q, f)
-                case = {'part': arg['part'], 'base': bi.text, 'refs': [ref]}
-                t.count(nontrivial=nontrivial, sample=case if len(t.samples) < 3 else None)
-                _record(t, case, g.call(case, eval_navigate, URL, bi, ref))
+    stats = {}
+    try:
+        for path in ref_paths(arg['kind'], arg['alphabet'], arg['maxseg']):
+            nontrivial = path_is_nontrivial(path)
+            objects = n_segments(path) <= arg.get('object_maxseg', -1)
+            for q in arg['queries']:
+                for f in arg['fragments']:
+                    ref = make_ref(path, q, f)
+                    case = {'part': arg['part'], 'base': bi.text, 'refs': [ref]}
+                    if objects:
+                        case['objects'] = True
+                    t.count(nontrivial=nontrivial, sample=case if len(t.samples) < 3 else None)
+                    _record(t, case, g.call(case, eval_navigate, URL, bi, ref, objects, stats))
+    finally:
+        _flush(t, stats)
 
 
 def shard_absolute(arg, t, g):
     URL = _url()
     bi = _base_info(g, URL, 'absolute', arg['base'])
-    for path in ref_paths('abempty', SEGMENTS, arg['maxseg']):
-        nontrivial = path_is_nontrivial(path)
-        for scheme in ABS_SCHEMES:
-            for auth in ABS_AUTHORITIES:
-                for q in (None, 'y'):
-                    for f in (None, 's'):
-                        ref = make_ref('%s://%s%s' % (scheme, auth, path), q, f)
-                        case = {'part': 'absolute', 'base': bi.text, 'refs': [ref]}
-                        t.count(nontrivial=nontrivial, sample=case if len(t.samples) < 3 else None)
-                        _record(t, case, g.call(case, eval_navigate, URL, bi, ref))
+    stats = {}
+    try:
+        for path in ref_paths('abempty', SEGMENTS, arg['maxseg']):
+            nontrivial = path_is_nontrivial(path)
+            objects = n_segments(path) <= arg.get('object_maxseg', -1)
+            for scheme in ABS_SCHEMES:
+                for auth in ABS_AUTHORITIES:
+                    for q in (None, 'y'):
+                        for f in (None, 's'):
+                            ref = make_ref('%s://%s%s' % (scheme, auth, path), q, f)
+                            case = {'part': 'absolute', 'base': bi.text, 'refs': [ref]}
+                            if objects:
+                                case['objects'] = True
+                            t.count(nontrivial=nontrivial, sample=case if len(t.samples) < 3 else None)
+                            _record(t, case, g.call(case, eval_navigate, URL, bi, ref, objects, stats))
+    finally:
+        _flush(t, stats)
 
 
 def chain_refs(maxseg, queries, fragments):
@@ -573,8 +689,10 @@ def shard_normalize(arg, t, g):
 def bounds(tier):
     if tier == 'quick':
         return {'navigate_maxseg': 4, 'names_maxseg': 3, 'absolute_maxseg': 2, 'chain_maxseg': 2,
+                'object_maxseg': 2, 'absolute_object_maxseg': 1,
                 'chain_bases': 4, 'chain_second': 'path x {"", "?y#s"}', 'normalize_maxseg': 4}
     return {'navigate_maxseg': 5, 'names_maxseg': 4, 'absolute_maxseg': 3, 'chain_maxseg': 2,
+            'object_maxseg': 3, 'absolute_object_maxseg': 2,
             'chain_bases': len(CHAIN_BASES), 'chain_second': 'path x {"", "?y"} x {"", "#s"}', 'normalize_maxseg': 6}
 
 
@@ -585,22 +703,25 @@ def run(ctx):
             "for normalize: the URL path has such a segment")
 
     args = [{'part': 'navigate', 'base': base, 'kind': kind, 'alphabet': SEGMENTS, 'maxseg': b['navigate_maxseg'],
-             'queries': QUERIES, 'fragments': FRAGMENTS} for base in BASES for kind in ('abs', 'rel')]
+             'queries': QUERIES, 'fragments': FRAGMENTS, 'object_maxseg': b['object_maxseg']}
+            for base in BASES for kind in ('abs', 'rel')]
     inputs.run_shards(ctx, _guarded(shard_navigate), args, part='navigate', rule=rule)
 
     args = [{'part': 'navigate-names', 'base': base, 'kind': kind, 'alphabet': NAME_SEGMENTS,
-             'maxseg': b['names_maxseg'], 'queries': (None, 'y'), 'fragments': (None,)}
+             'maxseg': b['names_maxseg'], 'queries': (None, 'y'), 'fragments': (None,),
+             'object_maxseg': b['object_maxseg']}
             for base in NAME_BASES for kind in ('abs', 'rel')]
     inputs.run_shards(ctx, _guarded(shard_navigate), args, part='navigate-names', rule=rule)
 
     # queries and fragments that contain the delimiters they may legally contain ("/" and "?") - they must not be taken
     # for component delimiters - on references of at most one segment
     args = [{'part': 'navigate-delims', 'base': base, 'kind': kind, 'alphabet': SEGMENTS, 'maxseg': 1,
-             'queries': (None, 'y/z?w'), 'fragments': (None, 's?t/u', '?', '/')}
+             'queries': (None, 'y/z?w'), 'fragments': (None, 's?t/u', '?', '/'), 'object_maxseg': 1}
             for base in BASES for kind in ('abs', 'rel')]
     inputs.run_shards(ctx, _guarded(shard_navigate), args, part='navigate-delims', rule=rule)
 
-    args = [{'part': 'absolute', 'base': base, 'maxseg': b['absolute_maxseg']} for base in ABS_BASES]
+    args = [{'part': 'absolute', 'base': base, 'maxseg': b['absolute_maxseg'],
+             'object_maxseg': b['absolute_object_maxseg']} for base in ABS_BASES]
     inputs.run_shards(ctx, _guarded(shard_absolute), args, part='absolute', rule=rule)
 
     refs1 = chain_refs(b['chain_maxseg'], (None, 'y'), (None, 's'))
@@ -643,6 +764,10 @@ def run(ctx):
         'chained navigation: the reference is applied step by step, each intermediate result normalized as the '
         'single-step property demands; the chain menu has no empty "?" query',
         'a URL object given as destination is compared with navigating to that object\'s own text',
+        'URL objects in other internal states (reference after normalize(), as the outcome of URL("").navigate(ref), '
+        'as a copy URL(URL(ref)); base after normalize()) are explored for references of <= object_maxseg segments; '
+        'such an object stands for the reference it renders to, and is only used when that text parses back to an '
+        'equal object and has a shape the statement covers; the normalized base only when normalize() left it as it was',
     ]
 
 
@@ -669,7 +794,7 @@ def _replay(ctx, data, case):
         bi = BaseInfo(URL, case['base'])
         refs = case['refs']
         if len(refs) == 1:
-            res = eval_navigate(URL, bi, refs[0])
+            res = eval_navigate(URL, bi, refs[0], objects=bool(case.get('objects')))
         else:
             res = _chain_fresh(URL, bi, refs[0], refs[1])
     # violations that KNOWN_FINDINGS.txt already records are not reported again by a replay
